@@ -7,14 +7,20 @@ b64 = lambda b: base64.b64encode(b).decode(); unb = base64.b64decode
 K = 3
 SKIPPED = collections.Counter()
 
-def replicate(src, k=K):
+def replicate(src, k=K, where="module"):
+    """k copies of the seed body between statement sentinels; where = module | def (each copy is the body of its own function) | method | if-block"""
+    import textwrap
     head, body = gen.split_head(src)
     if not body.strip(): return None
     if not body.endswith("\n"): body += "\n"
     out = head; ranges = []; line = head.count("\n")
     for i in range(k):
         out += S.BEGIN(i); line += 1
-        n = body.count("\n"); ranges.append((line + 1, line + n)); out += body; line += n
+        if where == "module": wrapped = body; skip = 0
+        elif where == "def": wrapped = f"def vf_site_fn_{i}(vf_p=None):\n" + textwrap.indent(body, "    "); skip = 1
+        elif where == "method": wrapped = f"class VfSite{i}:\n    def meth(self):\n" + textwrap.indent(body, "        "); skip = 2
+        else: wrapped = f"if VF_FLAG_{i}:\n" + textwrap.indent(body, "    "); skip = 1
+        n = wrapped.count("\n"); ranges.append((line + 1 + skip, line + n)); out += wrapped; line += n
         out += S.END(i); line += 1
     return out, ranges
 
@@ -30,17 +36,20 @@ def plan(tier, seed):
     recs = [r for r in corpus.load() if r["codemod"].startswith("pixee:") and r["input"] != r["expected"] and not r["files"]]
     by = collections.defaultdict(list)
     for r in recs: by[r["codemod"]].append(r)
-    per = 3 if tier == "quick" else 12
+    per = 2 if tier == "quick" else 12
     disc = []
     for cid, rs in sorted(by.items()):
         rs = sorted(rs, key=lambda r: (len(r["input"]), r["input"]))
-        for r in rs[:per]:
-            rep = replicate(r["input"])
+        sg = corpus.is_semgrep_detected(cid)      # each of their runs costs a semgrep invocation: the quick tier gives them one seed in one rotating form
+        for ri, r in enumerate(rs[: (1 if (sg and tier == "quick") else per)]):
+          forms = ("module", "def", "method", "if-block")
+          for where in (((forms[(len(disc) + seed) % 4],) if sg else ("module", forms[1 + ri % 3])) if tier == "quick" else forms):
+            rep = replicate(r["input"], where=where)
             if rep is None: continue
             src, ranges = rep
             try: compile(src, "<s>", "exec")
             except SyntaxError: continue
-            disc.append({"id": f"disc:{cid}:{hashlib.sha1(src.encode()).hexdigest()[:8]}", "cid": cid, "src": src, "ranges": ranges, "files": {"pkg/code.py": b64(src.encode())},
+            disc.append({"id": f"disc:{cid}:{where}:{hashlib.sha1(src.encode()).hexdigest()[:8]}", "cid": cid, "src": src, "ranges": ranges, "files": {"pkg/code.py": b64(src.encode())},
                          "argv": ["{proj}", "--output", "{out}", "--codemod-include", cid], "monitors": {"snap": False}})
     # group semgrep codemods? keep simple: individual runs
     pool = Pool(); res = pool.map(disc, timeout=300); pool.close()
